@@ -37,8 +37,11 @@ VARIABLES proc,         \* index of the running process
           seed,         \* hash seed of the process
           pc,           \* per thread: <<"idle">> | <<"interning", s>> (inside the interner lock region)
           dirty,        \* the interner entry being written (race leak only)
+          env,          \* the process environment variable naming the file being macro-expanded:
+                        \* {} (unset) or {s}
+          saved,        \* per thread: the value its guard found and will put back
           seen, ncomp
-vars == <<proc, interner, lambdas, seed, pc, dirty, seen, ncomp>>
+vars == <<proc, interner, lambdas, seed, pc, dirty, env, saved, seen, ncomp>>
 
 Threads == 1..NThreads
 Idle == <<"idle">>
@@ -46,6 +49,7 @@ Size(s) == 2            \* names a source adds to the interner
 
 Init == /\ proc = 1 /\ interner = 0 /\ lambdas = 0 /\ seed \in Seeds
         /\ pc = [t \in Threads |-> Idle] /\ dirty = {}
+        /\ env = {} /\ saved = [t \in Threads |-> {}]
         /\ seen = [s \in Sources |-> {}] /\ ncomp = 0
 
 Artifact(s, t) ==
@@ -61,22 +65,30 @@ Begin(t, s) == /\ pc[t] = Idle /\ ncomp < MaxCompiles
                /\ interner' = interner + Size(s)
                /\ dirty' = IF Leak = "race" THEN {s} ELSE dirty
                /\ ncomp' = ncomp + 1
+               \* MacroFileEnvGuard::new: remember what is there, publish the own file
+               /\ saved' = [saved EXCEPT ![t] = env] /\ env' = {s}
                /\ UNCHANGED <<proc, lambdas, seed, seen>>
 Finish(t) == /\ pc[t] # Idle
              /\ LET s == pc[t][2] IN seen' = [seen EXCEPT ![s] = @ \cup {Artifact(s, t)}]
              /\ pc' = [pc EXCEPT ![t] = Idle]
              /\ lambdas' = lambdas + 1
              /\ dirty' = {}
+             \* MacroFileEnvGuard::drop: put back what was found
+             /\ env' = saved[t] /\ UNCHANGED saved
              /\ UNCHANGED <<proc, interner, seed, ncomp>>
 NewProcess == /\ proc < NProcs /\ \A t \in Threads : pc[t] = Idle
               /\ proc' = proc + 1 /\ interner' = 0 /\ lambdas' = 0 /\ seed' \in Seeds
-              /\ dirty' = {}
-              /\ UNCHANGED <<pc, seen, ncomp>>
+              /\ dirty' = {} /\ env' = {}
+              /\ UNCHANGED <<pc, saved, seen, ncomp>>
 
 Next == (\E t \in Threads, s \in Sources : Begin(t, s)) \/ (\E t \in Threads : Finish(t)) \/ NewProcess
 Spec == Init /\ [][Next]_vars
 
 Deterministic == \A s \in Sources : Cardinality(seen[s]) <= 1
+(* the environment variable: while a thread expands macros it names that thread's file, and *)
+(* when nobody compiles it is unset again (what a plugin resolving relative paths relies on)  *)
+EnvOwn == \A t \in Threads : pc[t] # Idle => env = {pc[t][2]}
+EnvRestored == (\A t \in Threads : pc[t] = Idle) => env = {}
 (* every started compilation can finish: no interleaving blocks a thread for good *)
 NoStuckThread == \A t \in Threads : pc[t] # Idle => ENABLED Finish(t)
 =============================================================================
